@@ -61,8 +61,21 @@ impl World {
     pub fn parser(&self, sch: usize, max: u16) -> FilterParser<'_> {
         let mut p = FilterParser::new(&self.schemes[sch - 1]);
         p.set_max_nesting_depth(max);
+        let star = STAR.with(|s| s.get());
+        if star >= 0 {
+            p.wildcard_set_star_limit(star as usize);
+        }
         p
     }
+}
+
+thread_local! {
+    static STAR: std::cell::Cell<i64> = const { std::cell::Cell::new(-1) };
+}
+
+/// wildcard star limit used by the parsers created from now on (-1: the default, unlimited)
+pub fn set_star_limit(n: i64) {
+    STAR.with(|s| s.set(n));
 }
 
 pub fn quiet_panics() {
